@@ -205,6 +205,7 @@ def run(ctx, P):
     _f5.check_single_folding(ctx, P, {"hostname_resolvers", "addr"}, "C17a.F5.single-folding")
     c13.clause_stop_paths(ctx, P, "C17g")
     r2.address_types_come_in_pairs(ctx, P, "C17i")
+    r2.refresh_result_is_per_record(ctx, P, "C17j")
     from . import c19
     c19.clause_a(ctx, P)       # the doubling schedule of the hostname search (shared with C19)
     from . import c03
